@@ -130,7 +130,7 @@ double String::toDouble() const {return atof(*this);}
 
 const char* String::find(char c, usize start) const {return start >= data->len ? 0 : strchr(*this + start, c);}
 const char* String::find(const char* str) const {return strstr(*this, str);}
-const char* String::find(const char* str, usize start) const {return start >= data->len ? 0 : strstr(*this + start, str);}
+const char* String::find(const char* str, usize start) const {return start > data->len ? 0 : strstr(*this + start, str);}
 const char* String::findOneOf(const char* chars) const {return strpbrk(*this, chars);}
 const char* String::findOneOf(const char* chars, usize start) const {return start >= data->len ? 0 : strpbrk(*this + start, chars);}
 const char* String::findLast(const char* str) const {return String::findLast(*this, str);}
